@@ -391,4 +391,27 @@ example : decode (.legacyOption (.uint 1)) [0,0,0,0, 5] = .err := rejects_legacy
 -- two inputs that a lenient decoder would map to the same value: only one is accepted
 example : decode (.option (.uint 1)) [0] = .ok .none := by ssz_eval
 
+/-! ### consequences -/
+
+/-- decoding is idempotent through the encoder: the re-encoding of an accepted input is accepted
+    again, with the same value (decode ∘ encode ∘ decode = decode) -/
+theorem decode_encode_decode (t : Ty) (b : Bytes) (v : Val) (hs : t.strict = true)
+    (h : decode t b = .ok v) : decode t (encode t v) = .ok v := by
+  rw [canonical t b v hs h]; exact h
+
+/-- the set of accepted inputs of a strict type is exactly the image of the encoder on the decoded
+    values: `b` is accepted iff it is the encoding of some value that the decoder maps back to itself -/
+theorem accepted_iff_fixpoint (t : Ty) (b : Bytes) (hs : t.strict = true) :
+    (∃ v, decode t b = .ok v) ↔ ∃ v, encode t v = b ∧ decode t (encode t v) = .ok v := by
+  constructor
+  · rintro ⟨v, h⟩; exact ⟨v, canonical t b v hs h, decode_encode_decode t b v hs h⟩
+  · rintro ⟨v, he, hd⟩; exact ⟨v, by rw [← he]; exact hd⟩
+
+/-- two accepted inputs are equal iff their values are equal -/
+theorem accepted_eq_iff (t : Ty) (b b' : Bytes) (v v' : Val) (hs : t.strict = true)
+    (h : decode t b = .ok v) (h' : decode t b' = .ok v') : b = b' ↔ v = v' := by
+  constructor
+  · intro e; subst e; rw [h] at h'; cases h'; rfl
+  · intro e; subst e; exact decode_injective t b b' v hs h h'
+
 end Ssz.C02
